@@ -34,12 +34,11 @@ open Mdsort
 
 /-! ## what `stat` reports -/
 
-/-- What mdsort reads from a `struct stat`: the directory bit and the three times in seconds. -/
+/-- What mdsort reads from a `struct stat`: the directory bit (`isdirectory`) and the three time stamps
+(`Model.FileTimes`, the same record the pure evaluator's oracle `Env.fileTime` returns). -/
 structure StatInfo where
   isDir : Bool
-  atime : Int
-  mtime : Int
-  ctime : Int
+  times : FileTimes
 deriving Repr, DecidableEq
 
 def two64 : Nat := 18446744073709551616
@@ -54,15 +53,18 @@ def intToWord (i : Int) : Nat := (i % (two64 : Int)).toNat
 `st_ctim.tv_sec` as 64-bit words (tools/world.py writes the same number). -/
 def statDecode (v : Nat) : StatInfo :=
   let r := v / 2
-  { isDir := v % 2 == 1, atime := wordToInt r, mtime := wordToInt (r / two64), ctime := wordToInt (r / two64 / two64) }
+  { isDir := v % 2 == 1,
+    times := { atime := wordToInt r, mtime := wordToInt (r / two64), ctime := wordToInt (r / two64 / two64) } }
 
 def statEncode (s : StatInfo) : Nat :=
-  (if s.isDir then 1 else 0) + 2 * (intToWord s.atime + two64 * (intToWord s.mtime + two64 * intToWord s.ctime))
+  (if s.isDir then 1 else 0) +
+    2 * (intToWord s.times.atime + two64 * (intToWord s.times.mtime + two64 * intToWord s.times.ctime))
 
-def StatInfo.time (s : StatInfo) : DateField → Int
-  | .access => s.atime
-  | .modified => s.mtime
-  | .created => s.ctime
+/-- `ts = &st.st_atim | &st.st_mtim | &st.st_ctim` by field, `tim = ts->tv_sec` (as in `Model.eval`). -/
+def FileTimes.time (sb : FileTimes) : DateField → Int
+  | .access => sb.atime
+  | .modified => sb.mtime
+  | .created => sb.ctime
   | .header => 0
 
 /-! ## questions and answers -/
@@ -94,10 +96,14 @@ def ansIsDir (a : SysAns) : Bool :=
   | some si => si.isDir
   | none => false
 
-/-- The time of field `f` and its `time_format` (`tf`: `localtime` + `strftime`, `none` = NULL); `none` = `EXPR_ERROR`. -/
+/-- What `stat(message path)` reported to a file-time `date` condition: the three time stamps, `none` = -1. -/
+def ansTimes (a : SysAns) : Option FileTimes := (ansStat a).map (·.times)
+
+/-- The time of field `f` and its `time_format` (`tf` = `Env.timeFormat`: `localtime` + `strftime`, `none` = NULL);
+`none` = `EXPR_ERROR`. -/
 def ansFileTime (tf : Int → Option Bytes) (f : DateField) (a : SysAns) : Option (Int × Bytes) :=
-  match ansStat a with
-  | some si => (tf (si.time f)).map fun s => (si.time f, s)
+  match ansTimes a with
+  | some sb => (tf (sb.time f)).map fun s => (sb.time f, s)
   | none => none
 
 /-- A computation that asks questions. -/
@@ -118,10 +124,11 @@ def ask (q : Req) : Ask SysAns := .ask q .ret
 
 /-! ## `expr_eval` as a computation that asks -/
 
-/-- `expr_eval`: the result and the state.  The three oracle fields of `env` are not used; `tf` is `time_format`. -/
-def evalT (env : Env) (tf : Int → Option Bytes) (root : Msg) : Expr → (part : Nat) → Msg → St → Ask (Tri × St)
+/-- `expr_eval`: the result and the state.  The three oracle fields `command`, `isDir`, `fileTime` of `env` are not used (the
+questions are asked instead); `env.timeFormat` is `time_format`, as for `Model.eval`. -/
+def evalT (env : Env) (root : Msg) : Expr → (part : Nat) → Msg → St → Ask (Tri × St)
   | .block _ e, part, m, st =>
-    (evalT env tf root e part m st).bind fun
+    (evalT env root e part m st).bind fun
       | (.error, st1) => .ret (.error, st1)
       | (ev, st1) =>
         if (matchesFind st1.ml .brk).isSome then
@@ -131,16 +138,16 @@ def evalT (env : Env) (tf : Int → Option Bytes) (root : Msg) : Expr → (part 
           .ret (if n == 0 then .nomatch else .match, { st1 with ml := ml2 })
         else .ret (ev, st1)
   | .and _ l r, part, m, st =>
-    (evalT env tf root l part m st).bind fun
-      | (.match, st1) => evalT env tf root r part m st1
+    (evalT env root l part m st).bind fun
+      | (.match, st1) => evalT env root r part m st1
       | other => .ret other
   | .or _ l r, part, m, st =>
-    (evalT env tf root l part m st).bind fun
-      | (.nomatch, st1) => evalT env tf root r part m st1
+    (evalT env root l part m st).bind fun
+      | (.nomatch, st1) => evalT env root r part m st1
       | other => .ret other
   | .neg _ e, part, m, st =>
     let n := st.ml.length
-    (evalT env tf root e part m st).bind fun
+    (evalT env root e part m st).bind fun
       | (.error, st1) => .ret (.error, st1)
       | (.nomatch, st1) => .ret (.match, st1)
       | (.match, st1) => .ret (.nomatch, { st1 with ml := st1.ml.take n })
@@ -148,8 +155,8 @@ def evalT (env : Env) (tf : Int → Option Bytes) (root : Msg) : Expr → (part 
     let (ml, failed) := matchesAppend env st.ml { ty := .mtch, lno := lno, part := part }
     if failed then .ret (.error, { st with ml := ml })
     else
-      (evalT env tf root c part m { st with ml := ml }).bind fun
-        | (.match, st1) => evalT env tf root rhs part m st1
+      (evalT env root c part m { st with ml := ml }).bind fun
+        | (.match, st1) => evalT env root rhs part m st1
         | other => .ret other
   | .attachment _ e, part, m, st =>
     match getAttachments m with
@@ -159,7 +166,7 @@ def evalT (env : Env) (tf : Int → Option Bytes) (root : Msg) : Expr → (part 
         match ps with
         | [] => .ret (.nomatch, st)
         | p :: rest =>
-          (evalT env tf root e (if part == 0 then i + 1 else part) p st).bind fun
+          (evalT env root e (if part == 0 then i + 1 else part) p st).bind fun
             | (.nomatch, st1) => loop rest (i + 1) st1
             | other => .ret other
       loop parts 0 st
@@ -171,7 +178,7 @@ def evalT (env : Env) (tf : Int → Option Bytes) (root : Msg) : Expr → (part 
         match ps with
         | [] => .ret (ev, st)
         | p :: rest =>
-          (evalT env tf root blk (if part == 0 then i + 1 else part) p st).bind fun
+          (evalT env root blk (if part == 0 then i + 1 else part) p st).bind fun
             | (.error, st1) => .ret (.error, st1)
             | (.match, st1) => loopB rest (i + 1) .match st1
             | (.nomatch, st1) => loopB rest (i + 1) ev st1
@@ -180,7 +187,7 @@ def evalT (env : Env) (tf : Int → Option Bytes) (root : Msg) : Expr → (part 
   | .date lno field cmp age, part, _, st =>
     -- `stat(message_get_path(msg))`, then `time_format`
     (ask (.fileTime env.path field)).bind fun a =>
-      match ansFileTime tf field a with
+      match ansFileTime env.timeFormat field a with
       | none => .ret (.error, st)
       | some (tim, date) =>
         if !dateMatches cmp age env.now tim then .ret (.nomatch, st)
@@ -226,12 +233,12 @@ def Ask.run {α} : Ask α → List SysAns → α × List Req
     (x.1, q :: x.2)
 
 /-- The evaluation of the rules `e` on the parsed message `m` (flags `fl`) as a computation. -/
-def evalTop (env : Env) (tf : Int → Option Bytes) (e : Expr) (m : Msg) (fl : MFlags) : Ask (Tri × St) :=
-  evalT env tf m e 0 m { ml := [], flags := fl }
+def evalTop (env : Env) (e : Expr) (m : Msg) (fl : MFlags) : Ask (Tri × St) :=
+  evalT env m e 0 m { ml := [], flags := fl }
 
 /-- `expr_eval` with positional answers: the result, the state and the questions asked. -/
-def evalR (env : Env) (tf : Int → Option Bytes) (e : Expr) (m : Msg) (fl : MFlags) (as : List SysAns) : (Tri × St) × List Req :=
-  (evalTop env tf e m fl).run as
+def evalR (env : Env) (e : Expr) (m : Msg) (fl : MFlags) (as : List SysAns) : (Tri × St) × List Req :=
+  (evalTop env e m fl).run as
 
 /-! ## one question as calls -/
 
@@ -253,7 +260,7 @@ def Ask.toProg {α} : Ask α → Prog α
   | .ask q k => (sysCall q).bind fun a => (k a).toProg
 
 /-- `expr_eval(root rules, message)` in the world model. -/
-def evalP (env : Env) (tf : Int → Option Bytes) (e : Expr) (m : Msg) (fl : MFlags) : Prog (Tri × St) :=
-  (evalTop env tf e m fl).toProg
+def evalP (env : Env) (e : Expr) (m : Msg) (fl : MFlags) : Prog (Tri × St) :=
+  (evalTop env e m fl).toProg
 
 end Mdsort.Model
